@@ -32,6 +32,13 @@ RULES = {
     # nothing was checked before the round trip (SolverComposite remembers which children it still has to check)
     "unchecked-before": [A("UGE(x, 8)"), A("ULT(x, 3)"), P(), {"s": 0, "op": "satisfiable", "extra": []}],
     "unchecked-before-two-children": [A("y == 6"), A("UGE(x, 8)"), A("ULT(x, 3)"), P(), {"s": 0, "op": "satisfiable", "extra": []}, E("y", 5)],
+    # ONE add() call brings several constraints, one of which contradicts syntactically what is held (the solver that receives it
+    # alone notices at once and remembers `unsatisfiable`; whoever sits above it may not) - pickled before the first question
+    "contradiction-in-a-multi-add-before": [A("x == 1"), {"s": 0, "op": "add", "cs": ["y == 3", "x == 2"]}, P(), {"s": 0, "op": "satisfiable", "extra": []},
+                                            E("y", 5)],
+    "contradiction-in-a-multi-add-before-branch": [A("Or(b, y == 0)"), A("x == 5"), {"s": 0, "op": "branch"},
+                                                   {"s": 1, "op": "add", "cs": ["x != 5", "ULT(z, 2)"]}, P(1), P(0), E("z", 5, 1),
+                                                   {"s": 0, "op": "satisfiable", "extra": []}, {"s": 1, "op": "satisfiable", "extra": []}],
 }
 
 
@@ -46,6 +53,11 @@ def jobs_for(ctx, classes, mult=1):
         for i in range(n):
             jobs.append({"cls": cls, "cfg": {"track": cls != "SolverReplacement" and i % 5 == 0, "reuse": i % 3 == 0},
                          "len": lens[i % len(lens)], "gen": {"weights": WEIGHTS}})
+        # round trip BEFORE the first question: add() calls with several constraints, half of them contradicting syntactically what the
+        # solver holds, pickle, then the first question; random tail with more such adds
+        for i in range(ctx.pick(14, 100) * mult):
+            jobs.append({"cls": cls, "cfg": {"track": cls != "SolverReplacement" and i % 5 == 0, "reuse": i % 3 == 0},
+                         "len": ctx.pick(6, 20), "gen": {"shape": "early-pickle", "weights": WEIGHTS, "contra": 0.25}})
     return jobs
 
 
@@ -68,8 +80,14 @@ def cross_process_solvers(ctx, n):
     for i in range(n):
         cls = classes[i % len(classes)]
         cfg = {"track": cls not in ("SolverReplacement",) and i % 4 == 0, "reuse": False}
-        hist = L.gen_history(ctx.rng, ctx.pick(24, 50))
-        cut = ctx.rng.randrange(4, max(5, len(hist) - 4))
+        if i % 3 == 2:
+            # dumped BEFORE the first question (multi-constraint / contradicting adds only), first asked in the fresh process
+            pre = L.prefix_early_pickle(ctx.rng)
+            cut = next(k for k, d in enumerate(pre) if d["op"] == "pickle")
+            hist = L.gen_history(ctx.rng, ctx.pick(10, 24), prefix=[d for d in pre if d["op"] != "pickle"], contra=0.25)
+        else:
+            hist = L.gen_history(ctx.rng, ctx.pick(24, 50))
+            cut = ctx.rng.randrange(4, max(5, len(hist) - 4))
         prefix, suffix = hist[:cut], hist[cut:]
         kw = {"track": True} if cfg["track"] else {}
         solvers = [L.SOLVER_CLASSES[cls](**kw)]
@@ -220,7 +238,8 @@ def run(ctx):
         "the pickle module and process boundaries themselves (observed, not modelled); translator harness/translate_pickle.py (ast of __getstate__/__setstate__)",
         "the C11 hypotheses for the answers after the round trip",
     ]
-    ctx.cov["rule"] = ("(a) rule-directed and random histories with in-place pickle round trips (weight 12/95) on Solver, SolverCacheless, SolverStrings, "
+    ctx.cov["rule"] = ("(a) rule-directed and random histories with in-place pickle round trips (weight 12/95; a part of them opening with multi-constraint / "
+                       "syntactically contradicting add() calls and a round trip BEFORE the first question) on Solver, SolverCacheless, SolverStrings, "
                        "SolverCompositeChild (model correspondence) and SolverComposite, SolverHybrid, SolverReplacement (oracle); (b) solver trees pickled "
                        "after a random prefix, suffix run and judged in a fresh interpreter with a random PYTHONHASHSEED; (c) random annotated expressions "
                        "(depth <= 4): identity in-process, structure and value table equal in a fresh process; (d) SolverReplacement histories with "
